@@ -178,30 +178,43 @@ def cert_file() -> str:
 
 
 class TlsServerPeer(Peer):
-    """Real TLS server around `inner` (another Peer). fail=True: closes as soon as the ClientHello arrives."""
+    """Real TLS server around an inner Peer. fail=True: closes as soon as the ClientHello arrives.
+    `inner` is a Peer, or a callable(selected_alpn: str|None) -> Peer invoked once the handshake is complete
+    (so that an h2 / http/1.1 origin can be chosen by ALPN); alpn = list of protocols the server supports."""
 
-    def __init__(self, inner: Peer, fail=False):
+    def __init__(self, inner, fail=False, alpn=None):
         super().__init__()
-        self.inner = inner
+        self.inner = None if callable(inner) and not isinstance(inner, Peer) else inner
+        self.inner_factory = inner if self.inner is None else None
         self.fail = fail
         self.inc = ssl.MemoryBIO()
         self.outb = ssl.MemoryBIO()
         c = ssl.SSLContext(ssl.PROTOCOL_TLS_SERVER)
         c.load_cert_chain(cert_file())
+        if alpn:
+            c.set_alpn_protocols(list(alpn))
         self.sni = []
         c.sni_callback = lambda obj, name, ctx_: self.sni.append(name)
         self.obj = c.wrap_bio(self.inc, self.outb, server_side=True)
         self.handshaken = False
+        self.selected_alpn = None
         self.error = None
         self.tls_closed = False
         self.first_record = b""
 
-    def on_open(self):
+    def _wire_inner(self):
         self.inner.driver = self.driver
         self.inner.conn = self.conn
         self.inner.send = self._send_plain
         self.inner.close = self._close_plain
         self.inner.on_open()
+
+    def on_open(self):
+        if self.inner is not None:
+            self._wire_inner()
+
+    def plaintext(self) -> bytes:
+        return bytes(self.inner.received) if self.inner is not None else b""
 
     def _flush(self):
         out = self.outb.read()
@@ -239,6 +252,10 @@ class TlsServerPeer(Peer):
             try:
                 self.obj.do_handshake()
                 self.handshaken = True
+                self.selected_alpn = self.obj.selected_alpn_protocol()
+                if self.inner is None:
+                    self.inner = self.inner_factory(self.selected_alpn)
+                    self._wire_inner()
             except ssl.SSLWantReadError:
                 pass
             except (ssl.SSLError, OSError) as e:
@@ -269,7 +286,189 @@ class TlsServerPeer(Peer):
             self._flush()
 
     def on_eof(self):
-        if not self.inner.got_eof:
+        if self.inner is not None and not self.inner.got_eof:
             self.inner.got_eof = True
             self.inner.closed_by_proxy = self.closed_by_proxy
             self.inner.on_eof()
+
+
+class AutoTlsPeer(Peer):
+    """An endpoint that speaks TLS iff the first octet it receives is a TLS handshake record (0x16), plaintext otherwise.
+    app = Peer or callable(selected_alpn|None) -> Peer (called with None for plaintext)."""
+
+    def __init__(self, app, fail_tls=False, alpn=None):
+        super().__init__()
+        self.app = app
+        self.fail_tls = fail_tls
+        self.alpn = alpn
+        self.delegate = None
+        self.tls = None  # True / False once decided
+
+    def app_peer(self):
+        if self.tls:
+            return self.delegate.inner
+        return self.delegate
+
+    def on_data(self, data):
+        if self.delegate is None:
+            self.tls = data[:1] == b"\x16"
+            if self.tls:
+                dlg = TlsServerPeer(self.app, fail=self.fail_tls, alpn=self.alpn)
+            else:
+                dlg = self.app if isinstance(self.app, Peer) else self.app(None)
+            dlg.driver, dlg.conn = self.driver, self.conn
+            dlg.send, dlg.close = self.send, self.close
+            self.delegate = dlg
+            dlg.on_open()
+        self.delegate.received += data
+        self.delegate.on_data(data)
+
+    def on_eof(self):
+        if self.delegate is not None and not self.delegate.got_eof:
+            self.delegate.got_eof = True
+            self.delegate.closed_by_proxy = self.closed_by_proxy
+            self.delegate.on_eof()
+
+
+class H2OriginPeer(Peer):
+    """HTTP/2 origin (python-h2, server side). responder(k, req, self) -> (status:int, headers:list[(bytes,bytes)], body:bytes) | None
+    where req = dict(stream_id, method, scheme, authority, path, headers, body). Every request is recorded in .requests."""
+
+    def __init__(self, responder):
+        super().__init__()
+        import h2.config
+        import h2.connection
+
+        self.responder = responder
+        self.h2 = h2.connection.H2Connection(h2.config.H2Configuration(client_side=False, header_encoding=None, validate_inbound_headers=False))
+        self.requests = []
+        self.open_streams = {}
+        self.error = None
+
+    def on_open(self):
+        self.h2.initiate_connection()
+        self.send(self.h2.data_to_send())
+
+    def on_data(self, data):
+        import h2.events
+        import h2.exceptions
+
+        if self.error is not None:
+            return
+        try:
+            evs = self.h2.receive_data(data)
+        except h2.exceptions.ProtocolError as e:
+            self.error = e
+            out = self.h2.data_to_send()
+            if out:
+                self.send(out)
+            self.close()
+            return
+        for ev in evs:
+            if isinstance(ev, h2.events.RequestReceived):
+                hd = dict(ev.headers)
+                self.open_streams[ev.stream_id] = {
+                    "stream_id": ev.stream_id, "method": hd.get(b":method", b"").decode("latin-1"), "scheme": hd.get(b":scheme"),
+                    "authority": hd.get(b":authority"), "path": hd.get(b":path", b""), "target": hd.get(b":path", b""), "headers": list(ev.headers), "body": b"",
+                }
+                if ev.stream_ended:
+                    self._finish(ev.stream_id)
+            elif isinstance(ev, h2.events.DataReceived):
+                if ev.stream_id in self.open_streams:
+                    self.open_streams[ev.stream_id]["body"] += ev.data
+                self.h2.acknowledge_received_data(ev.flow_controlled_length, ev.stream_id)
+            elif isinstance(ev, h2.events.StreamEnded):
+                self._finish(ev.stream_id)
+            elif isinstance(ev, h2.events.StreamReset):
+                self.open_streams.pop(ev.stream_id, None)
+        out = self.h2.data_to_send()
+        if out:
+            self.send(out)
+
+    def _finish(self, sid):
+        req = self.open_streams.pop(sid, None)
+        if req is None:
+            return
+        k = len(self.requests)
+        self.requests.append(req)
+        ans = self.responder(k, req, self)
+        if ans is None:
+            return
+        status, headers, body = ans
+        self.h2.send_headers(sid, [(b":status", b"%d" % status)] + list(headers), end_stream=not body)
+        if body:
+            self.h2.send_data(sid, body, end_stream=True)
+
+
+class H2ClientPeer(Peer):
+    """HTTP/2 client (python-h2). batches: list of lists of request dicts {headers: [(bytes, bytes)], body: bytes, key: any};
+    batch i+1 is sent once every stream of batch i has ended or was reset. Responses are recorded per key in .responses."""
+
+    def __init__(self, batches):
+        super().__init__()
+        import h2.config
+        import h2.connection
+
+        self.h2 = h2.connection.H2Connection(h2.config.H2Configuration(client_side=True, header_encoding=None, validate_inbound_headers=False))
+        self.batches = [list(b) for b in batches]
+        self.next_batch = 0
+        self.pending = set()
+        self.by_stream = {}
+        self.responses = {}
+        self.error = None
+        self.terminated = False
+
+    def on_open(self):
+        self.h2.initiate_connection()
+        self._send_batch()
+
+    def _send_batch(self):
+        while self.next_batch < len(self.batches) and not self.pending and not self.terminated:
+            for rq in self.batches[self.next_batch]:
+                sid = self.h2.get_next_available_stream_id()
+                self.by_stream[sid] = rq["key"]
+                self.responses[rq["key"]] = {"status": None, "headers": [], "body": b"", "ended": False, "reset": None, "stream_id": sid}
+                self.pending.add(sid)
+                self.h2.send_headers(sid, rq["headers"], end_stream=not rq.get("body"))
+                if rq.get("body"):
+                    self.h2.send_data(sid, rq["body"], end_stream=True)
+            self.next_batch += 1
+        out = self.h2.data_to_send()
+        if out:
+            self.send(out)
+
+    def on_data(self, data):
+        import h2.events
+        import h2.exceptions
+
+        if self.error is not None:
+            return
+        try:
+            evs = self.h2.receive_data(data)
+        except h2.exceptions.ProtocolError as e:
+            self.error = e
+            return
+        for ev in evs:
+            sid = getattr(ev, "stream_id", None)
+            rec = self.responses.get(self.by_stream.get(sid)) if sid else None
+            if isinstance(ev, h2.events.ResponseReceived) and rec is not None:
+                hd = dict(ev.headers)
+                rec["status"] = int(hd.get(b":status", b"0"))
+                rec["headers"] = list(ev.headers)
+            elif isinstance(ev, h2.events.DataReceived):
+                if rec is not None:
+                    rec["body"] += ev.data
+                self.h2.acknowledge_received_data(ev.flow_controlled_length, ev.stream_id)
+            elif isinstance(ev, h2.events.StreamEnded) and rec is not None:
+                rec["ended"] = True
+                self.pending.discard(sid)
+            elif isinstance(ev, h2.events.StreamReset) and rec is not None:
+                rec["reset"] = ev.error_code
+                self.pending.discard(sid)
+            elif isinstance(ev, h2.events.ConnectionTerminated):
+                self.terminated = True
+                self.pending.clear()
+        out = self.h2.data_to_send()
+        if out:
+            self.send(out)
+        self._send_batch()
